@@ -8,7 +8,7 @@ TEXT = {
     "C09": {
         "level": "C09_apply_total: under the reachable-state assumptions ApplyPre, applying ANY batch of arbitrary transactions returns a state or a rejection, never a crash (every panic / overflow / unwrap site of the code is a `crash` outcome of the model; all four crashing phases are covered); C09_load_total, C09_stake_info_total, C09_scripts_total hold unconditionally; C09_seal_total and C09_seal_ok: under SealTotalPre sealing with any action never crashes and never rejects; C09_swap/deposit/withdraw/action/swaps_total; machine-checked witnesses show each assumption is needed (C09_swap_needs_u128, C09_doscmint_*_crash, C09_reward_overflow_witness). Termination is by construction plus C11. The real code is run on hostile inputs (arbitrary bytes in data/covenants/signatures, zero and maximal values, 254-256 outputs, garbage proofs and stake documents, every delta) under catch_unwind; a panic is an output the model must match.",
         "design_ref": "DESIGN.md §4 C09",
-        "note": NOTE_COMMON + " Repaired by fix: commits: F3, F3b, F16, F7, F10 (assert), F18, withdraw guard. Open known findings: F9, F13, F17, F19, F2, K-faucet-liq.",
+        "note": NOTE_COMMON + " Repaired by fix: commits: F3, F3b, F16, F7, F10 (assert), F18, withdraw guard. Also repaired: F13, F19, F2, F21, F22, F23. Open known findings: F9, F17, K-faucet-liq.",
         "technique": "Lean 4 totality theorems over an explicit crash outcome + hostile-input differential execution",
     },
     "C10": {
@@ -18,10 +18,10 @@ TEXT = {
         "technique": "Lean 4 theorems on executable model + differential execution vs real VM",
     },
     "C11": {
-        "level": "C11_steps_le_weight: for every program, oracle and heap the number of executed instructions is at most the un-saturated weight (potential-function proof over loop stacks), hence C11_fuel_sufficient (termination) and C11_steps_le_charged; C11_weight_saturates ties the u128-saturating value the code returns to the mathematical weight; C11_weigh_exponential proves that weighing itself costs 2^n calls for n stacked loops (known finding F2). Weight values, car-weight call counts and step counts are compared with the real code.",
+        "level": "C11_steps_le_weight: for every program, oracle and heap the number of executed instructions is at most the un-saturated weight (potential-function proof over loop stacks), hence C11_fuel_sufficient (termination) and C11_steps_le_charged(_impl); C11_weight_saturates ties the u128-saturating value to the mathematical weight; C11_weightDP_eq_weight: the weigher as implemented since fix 34e0e18 (one right-to-left pass per distinct loop-body end, modelled as weightDP) returns exactly the specified weight for every program, and C11_weigh_quadratic(_sharp) / C11_weigh_linear_in_ends / C11_ends_le bound the steps it makes by |ops|(|ops|+1)/2 and by |ops|(loops+1); C11_weigh_exponential is kept as a theorem about the old recursion (finding F2, fixed). Weight values, the weigher's step counter (hook) and executed step counts are compared with the real code on every weighed program; harness facts bound the weigher's total steps by (bytes+1)^2 and what an execution allocates by its weight.",
         "design_ref": "DESIGN.md §4 C11",
-        "note": NOTE_COMMON + " Real time and memory are only tied through the hook counters; the polynomial-cost half of the property is violated by the code (known findings).",
-        "technique": "Lean 4 potential-function proof + differential execution",
+        "note": NOTE_COMMON + " Real time and memory are only tied through the hook counters and the counting allocator; F2, F13, F14 repaired by fix: commits; the native-stack overflow when a deeply nested value is dropped (F17, dependency/runtime) stays an open known finding.",
+        "technique": "Lean 4 potential-function proof + refinement of the implemented weigher to the specification + differential execution",
     },
     "C12": {
         "level": "decode∘encode and encode∘decode are identities on the Lean codec model for every byte string and every representable program (C12_decode_encode, C12_encode_decode, C12_injective, …), proved by unfolding the opcode byte table regenerated from consts.rs and the encode/decode arms of opcode.rs; the model codec is compared with Covenant::from_bytes/to_bytes on all strings of length ≤2 (3 in thorough), every opcode with every argument class, truncations, mutations and random programs.",
